@@ -109,13 +109,13 @@ Lemma mterm_err : forall c, mterm (MErr c). Proof. split; discriminate. Qed.
 
 Ltac inv H := inversion H; subst; clear H.
 
-Lemma m_seq_frame : forall ev stop, mframe ev -> forall fs last st r st',
-  m_seq ev stop fs last st = (r, st') -> mterm r -> ext st st'.
+Lemma m_seq_frame : forall ev, mframe ev -> forall fs last st r st',
+  m_seq ev fs last st = (r, st') -> mterm r -> ext st st'.
 Proof.
-  intros ev stop Hev. induction fs as [|f fs IH]; intros last st r st' H T; cbn in H.
+  intros ev Hev. induction fs as [|f fs IH]; intros last st r st' H T; cbn in H.
   - inv H. apply ext_refl.
   - destruct (ev f st) as [o st1] eqn:E. destruct o.
-    + destruct (stop v).
+    + destruct (is_marker v).
       * inv H. eapply Hev; eauto.
       * eapply ext_trans; [eapply Hev; eauto with c07 | eapply IH; eauto].
     + inv H. eapply Hev; eauto.
@@ -129,7 +129,9 @@ Proof.
   intros ev Hev. induction fs as [|f fs IH]; intros acc st x st' H T; cbn in H.
   - inv H. apply ext_refl.
   - destruct (ev f st) as [o st1] eqn:E. destruct o.
-    + eapply ext_trans; [eapply Hev; eauto with c07 | eapply IH; eauto].
+    + destruct (is_marker v).
+      * inv H. eapply Hev; eauto.
+      * eapply ext_trans; [eapply Hev; eauto with c07 | eapply IH; eauto].
     + inv H. eapply Hev; eauto.
     + inv H. destruct T as [T _]. congruence.
     + inv H. destruct T as [_ T]. congruence.
@@ -143,41 +145,59 @@ Proof.
   - destruct (ev c st) as [o st1] eqn:E. destruct o.
     + destruct (is_nil (prim v)).
       * eapply ext_trans; [eapply Hev; eauto with c07 | eapply IH; eauto].
-      * eapply ext_trans; [eapply Hev; eauto with c07 | eapply m_seq_frame; eauto].
+      * destruct (is_marker v).
+        -- inv H. eapply Hev; eauto.
+        -- eapply ext_trans; [eapply Hev; eauto with c07 | eapply m_seq_frame; eauto].
     + inv H. eapply Hev; eauto.
     + inv H. destruct T as [T _]. congruence.
     + inv H. destruct T as [_ T]. congruence.
 Qed.
 
 Definition oterm (x : option mres) : Prop := match x with Some r => mterm r | None => True end.
+Definition mpterm (x : mstep) : Prop := match x with MOut r => mterm r | _ => True end.
 
-Lemma m_items_frame : forall ev evt onret, mframe ev -> forall items skip st x st',
-  m_items ev evt onret skip items st = (x, st') -> oterm x -> ext st st'.
+Lemma m_pass_frame : forall ev onret own, mframe ev -> forall items st x st',
+  m_pass ev onret own items st = (x, st') -> mpterm x -> ext st st'.
 Proof.
-  intros ev evt onret Hev. induction items as [|it items IH]; intros skip st x st' H T; cbn in H.
+  intros ev onret own Hev. induction items as [|it items IH]; intros st x st' H T; cbn in H.
   - inv H. apply ext_refl.
-  - destruct it as [t|f].
-    + destruct skip as [t'|].
-      * destruct (N.eqb t t'); eapply IH; eauto.
-      * destruct (evt && sym_tag t); [inv H; apply ext_refl | eapply IH; eauto].
-    + destruct skip as [t'|]; [eapply IH; eauto|].
-      destruct (ev f st) as [o st1] eqn:E. destruct o.
-      * assert (X : ext st st1) by (eapply Hev; eauto with c07).
-        destruct v; try solve [eapply ext_trans; [exact X | eapply IH; eauto]].
-        destruct (onret t v); [inv H; exact X | eapply ext_trans; [exact X | eapply IH; eauto]].
-      * inv H. eapply Hev; eauto.
-      * inv H. destruct T as [T _]. congruence.
-      * inv H. destruct T as [_ T]. congruence.
+  - destruct it as [t|f]; [eapply IH; eauto|].
+    destruct (ev f st) as [o st1] eqn:E. destruct o.
+    + assert (X : ext st st1) by (eapply Hev; eauto with c07).
+      destruct v; try solve [eapply ext_trans; [exact X | eapply IH; eauto]].
+      * inv H. exact X.
+      * destruct (memN t own); inv H; exact X.
+    + inv H. eapply Hev; eauto.
+    + inv H. destruct T as [T _]. congruence.
+    + inv H. destruct T as [_ T]. congruence.
 Qed.
 
-Lemma m_iter_frame : forall ev onret, mframe ev -> forall n body st x st',
-  m_iter ev onret n body st = (x, st') -> oterm x -> ext st st'.
+Lemma m_tagbody_frame : forall ev onret all, mframe ev -> forall k items st x st',
+  m_tagbody ev onret all k items st = (x, st') -> oterm x -> ext st st'.
 Proof.
-  intros ev onret Hev. induction n as [|n IH]; intros body st x st' H T; cbn in H.
+  intros ev onret all Hev. induction k as [|k IH]; intros items st x st' H T; cbn in H;
+    destruct (m_pass ev onret (tags_of all) items st) as [y st1] eqn:E; destruct y;
+    try solve [inv H; eapply m_pass_frame; eauto; exact I].
+  eapply ext_trans; [eapply m_pass_frame; eauto; exact I | eapply IH; eauto].
+Qed.
+
+Lemma m_iter_frame : forall ev onret k, mframe ev -> forall n body st x st',
+  m_iter ev onret k n body st = (x, st') -> oterm x -> ext st st'.
+Proof.
+  intros ev onret k Hev. induction n as [|n IH]; intros body st x st' H T; cbn in H.
   - inv H. apply ext_refl.
-  - destruct (m_items ev false onret None body st) as [[r|] st1] eqn:E.
-    + inv H. eapply m_items_frame; eauto.
-    + eapply ext_trans; [eapply m_items_frame; eauto; exact I | eapply IH; eauto].
+  - destruct (m_tagbody ev onret body k body st) as [[r|] st1] eqn:E.
+    + inv H. eapply m_tagbody_frame; eauto.
+    + eapply ext_trans; [eapply m_tagbody_frame; eauto; exact I | eapply IH; eauto].
+Qed.
+
+Lemma m_catch_frame : forall t st r0 st0 r st', m_catch t (r0, st0) = (r, st') ->
+  (mterm r0 -> ext st st0) -> mterm r -> ext st st'.
+Proof.
+  intros t st r0 st0 r st' H X T. unfold m_catch in H.
+  destruct r0; try solve [inv H; apply X; assumption].
+  destruct v; try solve [inv H; apply X; auto with c07].
+  destruct (N.eqb t t0); inv H; apply X; auto with c07.
 Qed.
 
 Theorem meval_frame : forall defs fuel sc tb, mframe (meval defs fuel sc tb).
@@ -198,6 +218,7 @@ Proof.
     + (* When *)
       destruct (meval defs n sc tb f st) as [o st1] eqn:E. destruct o; try solve [inv H; eapply IH; eauto].
       assert (X : ext st st1) by (eapply IH; eauto with c07).
+      destruct (is_marker v); [inv H; exact X|].
       destruct (is_nil (prim v)); [inv H; exact X | eapply ext_trans; [exact X | eapply m_seq_frame; eauto]].
     + (* Cond *) eapply m_cond_frame; eauto.
     + (* Let *)
@@ -205,69 +226,81 @@ Proof.
       * inv H. eapply m_args_frame; eauto.
       * eapply ext_trans; [eapply m_args_frame; eauto; exact I | eapply m_seq_frame; eauto].
     + (* Block *)
-      destruct (m_seq (meval defs n ((true, t) :: sc) tb) is_ret body VNil st) as [o st1] eqn:E.
-      assert (X : mterm o -> ext st st1) by (intro; eapply m_seq_frame; eauto).
-      destruct o; try solve [inv H; apply X; assumption].
-      destruct v; try solve [inv H; apply X; auto with c07].
-      destruct (N.eqb t t0); inv H; apply X; auto with c07.
+      destruct (m_seq (meval defs n ((true, t) :: sc) tb) body VNil st) as [o st1] eqn:E.
+      eapply m_catch_frame; eauto. intro. eapply m_seq_frame; eauto.
     + (* ReturnFrom *)
       destruct (in_block sc t); [| inv H; apply ext_refl].
       destruct (meval defs n sc tb f st) as [o st1] eqn:E.
-      destruct o; inv H; eapply IH; eauto with c07.
+      destruct o; try solve [inv H; eapply IH; eauto with c07].
+      destruct (is_marker v); inv H; eapply IH; eauto with c07.
     + (* Return *)
       destruct (in_block sc 0%N); [| inv H; apply ext_refl].
       destruct (meval defs n sc tb f st) as [o st1] eqn:E.
-      destruct o; inv H; eapply IH; eauto with c07.
+      destruct o; try solve [inv H; eapply IH; eauto with c07].
+      destruct (is_marker v); inv H; eapply IH; eauto with c07.
     + (* Tagbody *)
-      destruct (m_items (meval defs n ((false, 0%N) :: sc) true) true onret_none None items st) as [[o|] st1] eqn:E;
-        inv H; eapply m_items_frame; eauto; exact I.
+      destruct (m_tagbody (meval defs n ((false, 0%N) :: sc) true) onret_pass items n items st) as [[o|] st1] eqn:E;
+        inv H; eapply m_tagbody_frame; eauto; exact I.
     + (* Go *) destruct tb; inv H; apply ext_refl.
     + (* UnwindProtect *)
       destruct (meval defs n sc tb f (log (EEnter u) st)) as [o st1] eqn:E.
       assert (X : mterm o -> ext (log (EEnter u) st) st1) by (intro; eapply IH; eauto).
-      assert (Y : forall r2 st2, m_seq (meval defs n sc tb) never cleanup VNil (log (ECleanup u) st1) = (r2, st2) ->
+      assert (Y : forall r2 st2, m_seq (meval defs n sc tb) cleanup VNil (log (ECleanup u) st1) = (r2, st2) ->
                   mterm r2 -> ext (log (ECleanup u) st1) st2) by (intros; eapply m_seq_frame; eauto).
       destruct o.
-      * destruct (m_seq (meval defs n sc tb) never cleanup VNil (log (ECleanup u) st1)) as [r2 st2] eqn:E2.
-        destruct r2; inv H; (eapply ext_protect; [apply X; auto with c07 | eapply Y; [reflexivity | first [assumption | auto with c07]]]).
-      * destruct (m_seq (meval defs n sc tb) never cleanup VNil (log (ECleanup u) st1)) as [r2 st2] eqn:E2.
-        destruct r2; inv H; (eapply ext_protect; [apply X; auto with c07 | eapply Y; [reflexivity | first [assumption | auto with c07]]]).
+      * destruct (m_seq (meval defs n sc tb) cleanup VNil (log (ECleanup u) st1)) as [r2 st2] eqn:E2.
+        destruct r2; [destruct (is_marker v0) | | |]; inv H;
+          (eapply ext_protect; [apply X; auto with c07 | eapply Y; [reflexivity | first [assumption | auto with c07]]]).
+      * destruct (m_seq (meval defs n sc tb) cleanup VNil (log (ECleanup u) st1)) as [r2 st2] eqn:E2.
+        destruct r2; [destruct (is_marker v) | | |]; inv H;
+          (eapply ext_protect; [apply X; auto with c07 | eapply Y; [reflexivity | first [assumption | auto with c07]]]).
       * inv H. destruct T as [T _]. congruence.
       * inv H. destruct T as [_ T]. congruence.
     + (* IgnoreErrors *)
-      destruct (m_seq (meval defs n sc tb) never body VNil st) as [o st1] eqn:E.
+      destruct (m_seq (meval defs n sc tb) body VNil st) as [o st1] eqn:E.
       destruct o; inv H; eapply m_seq_frame; eauto with c07.
     + (* Recover *)
-      destruct (m_seq (meval defs n sc tb) never body VNil st) as [o st1] eqn:E.
+      destruct (m_seq (meval defs n sc tb) body VNil st) as [o st1] eqn:E.
       destruct o; try solve [inv H; eapply m_seq_frame; eauto].
       eapply ext_trans; [eapply m_seq_frame; eauto with c07 | eapply IH; eauto].
     + (* WithMutex *)
       destruct (N.testbit (locks st) m) eqn:B; [inv H; destruct T as [T _]; congruence|].
-      destruct (m_seq (meval defs n sc tb) never body VNil (lock m st)) as [o st1] eqn:E.
+      destruct (m_seq (meval defs n sc tb) body VNil (lock m st)) as [o st1] eqn:E.
       destruct o; inv H; try solve [apply ext_lock; [exact B | eapply m_seq_frame; eauto with c07]].
       * destruct T as [T _]. congruence.
       * destruct T as [_ T]. congruence.
     + (* WithFile *)
-      destruct (m_seq (meval defs n ((false, 0%N) :: sc) tb) never body VNil (fopen f st)) as [o st1] eqn:E.
+      destruct (m_seq (meval defs n ((false, 0%N) :: sc) tb) body VNil (fopen f st)) as [o st1] eqn:E.
       destruct o; inv H; try solve [apply ext_file; eapply m_seq_frame; eauto with c07].
       * destruct T as [T _]. congruence.
       * destruct T as [_ T]. congruence.
     + (* Loop *)
-      destruct (m_iter (meval defs n ((true, 0%N) :: sc) true) onret_loop n0 body st) as [[o|] st1] eqn:E.
+      destruct (m_iter (meval defs n ((true, 0%N) :: sc) true) onret_loop n n0 body st) as [[o|] st1] eqn:E.
       * inv H. eapply m_iter_frame; eauto.
-      * eapply ext_trans; [eapply m_iter_frame; eauto; exact I | eapply IH; eauto].
+      * eapply ext_trans; [eapply m_iter_frame; eauto; exact I|].
+        destruct (meval defs n ((true, 0%N) :: sc) true f st1) as [r0 st0] eqn:E0.
+        eapply m_catch_frame; eauto. intro. eapply IH; eauto.
     + (* Do *)
-      destruct (m_iter (meval defs n ((true, 0%N) :: sc) true) (onret_do (head_block sc)) n0 body st) as [[o|] st1] eqn:E.
+      destruct (m_iter (meval defs n ((true, 0%N) :: sc) true) onret_loop n n0 body st) as [[o|] st1] eqn:E.
       * inv H. eapply m_iter_frame; eauto.
-      * eapply ext_trans; [eapply m_iter_frame; eauto; exact I | eapply m_seq_frame; eauto].
+      * eapply ext_trans; [eapply m_iter_frame; eauto; exact I|].
+        destruct (m_seq (meval defs n ((true, 0%N) :: sc) true) res VNil st1) as [r0 st0] eqn:E0.
+        eapply m_catch_frame; eauto. intro. eapply m_seq_frame; eauto.
     + (* Lam *) eapply m_seq_frame; eauto.
     + (* CallU *)
       destruct (nth_error defs i) as [body|]; [| inv H; apply ext_refl].
-      destruct (m_seq (meval defs n ((true, fn_tag i) :: sc) tb) is_ret body VNil st) as [o st1] eqn:E.
-      assert (X : mterm o -> ext st st1) by (intro; eapply m_seq_frame; eauto).
-      destruct o; try solve [inv H; apply X; assumption].
-      destruct v; try solve [inv H; apply X; auto with c07].
-      destruct (N.eqb t (fn_tag i)); inv H; apply X; auto with c07.
+      destruct (m_seq (meval defs n ((true, fn_tag i) :: sc) tb) body VNil st) as [o st1] eqn:E.
+      eapply m_catch_frame; eauto. intro. eapply m_seq_frame; eauto.
+    + (* Unless *)
+      destruct (meval defs n sc tb f st) as [o st1] eqn:E. destruct o; try solve [inv H; eapply IH; eauto].
+      assert (X : ext st st1) by (eapply IH; eauto with c07).
+      destruct (is_marker v); [inv H; exact X|].
+      destruct (is_nil (prim v)); [eapply ext_trans; [exact X | eapply m_seq_frame; eauto] | inv H; exact X].
+    + (* If *)
+      destruct (meval defs n sc tb f1 st) as [o st1] eqn:E. destruct o; try solve [inv H; eapply IH; eauto].
+      assert (X : ext st st1) by (eapply IH; eauto with c07).
+      destruct (is_marker v); [inv H; exact X|].
+      destruct (is_nil (prim v)); (eapply ext_trans; [exact X | eapply IH; eauto]).
 Qed.
 
 (* ================================================================================================ *)
@@ -419,4 +452,12 @@ Proof.
       eapply catch_frame; eauto. intros o1 Ho1 T1.
       destruct (s_seq (seval defs n [fn_tag i] []) body VNil st) as [o2 st2] eqn:E. cbn in *. subst.
       eapply s_seq_frame; eauto.
+    + (* Unless *)
+      destruct (seval defs n bl tg f st) as [o1 st1] eqn:E. destruct o1; try solve [inv H; eapply IH; eauto].
+      assert (X : ext st st1) by (eapply IH; eauto with c07).
+      destruct (is_nil v); [eapply ext_trans; [exact X | eapply s_seq_frame; eauto] | inv H; exact X].
+    + (* If *)
+      destruct (seval defs n bl tg f1 st) as [o1 st1] eqn:E. destruct o1; try solve [inv H; eapply IH; eauto].
+      assert (X : ext st st1) by (eapply IH; eauto with c07).
+      destruct (is_nil v); (eapply ext_trans; [exact X | eapply IH; eauto]).
 Qed.
